@@ -363,6 +363,8 @@ def subst_value(v, pairs):
         return [subst_value(x, pairs) for x in v]
     if isinstance(v, dict):
         return {k: subst_value(x, pairs) for k, x in v.items()}
+    if type(v).__name__ == "SymOpt":
+        return type(v)(z3.substitute(v.is_none, *pairs), subst_value(v.value, pairs))
     if hasattr(v, "pyvc_subst"):
         return v.pyvc_subst(pairs)
     return v
